@@ -117,6 +117,25 @@ def case_ll(B, cfg):
         B.eq('posterior=prior+likelihood', post(th), prior(th) + total)
 
 
+def empty_layouts():
+    """an output without any measurement (accepted by the constructor): its
+    error parameters are still part of the parameter vector"""
+    out = []
+    two = [('Gaussian', 'ConstantAndMultiplicative'),
+           ('ConstantAndMultiplicative', 'Gaussian'),
+           ('LogNormal', 'Multiplicative'),
+           ('ConstantAndMultiplicative', 'LogNormal')]
+    for e in two:
+        for times in ([[], [0.0, 1.0]], [[1.0, 2.5], []], [[], [1.0, 1.0]]):
+            out.append(('ll', 'case_ll', dict(ems=list(e), times=times), {}))
+    for e in (('Gaussian', 'ConstantAndMultiplicative', 'LogNormal'),
+              ('ConstantAndMultiplicative', 'Multiplicative', 'Gaussian')):
+        for times in ([[0.0], [], [0.0, 1.0]], [[], [], [1.0]],
+                      [[], [1.0, 2.5], [0.0]]):
+            out.append(('ll', 'case_ll', dict(ems=list(e), times=times), {}))
+    return out
+
+
 def grids(K, L):
     vals = TIME_VALUES[:K]
     out = []
@@ -151,6 +170,23 @@ def jobs(tier):
                     ems=list(e), times=[t0, t1]), {}))
         out.append(('ll', 'case_ll', dict(
             ems=['Gaussian'], times=[[2.5, 1.0]], unsorted=True), {}))
+        # three and four outputs: error models with different numbers of
+        # parameters in every position (offsets of the parameter slices)
+        trip = list(itertools.product(refs.ERROR_MODELS, repeat=3))
+        g3 = [[[0.0], [1.0], [0.0, 1.0]], [[0.0, 1.0], [1.0, 1.0], [2.5]],
+              [[1.0, 2.5], [0.0], [0.0, 2.5]]]
+        for k, e in enumerate(trip):
+            if len(set(refs.em_nparams(x) for x in e)) > 1 or k % 9 == 0:
+                out.append(('ll', 'case_ll', dict(
+                    ems=list(e), times=g3[k % 3], posterior=(k % 11 == 0)),
+                    {}))
+        for e in (['ConstantAndMultiplicative', 'Gaussian', 'LogNormal',
+                   'ConstantAndMultiplicative'],
+                  ['Gaussian', 'ConstantAndMultiplicative', 'Multiplicative',
+                   'Gaussian']):
+            out.append(('ll', 'case_ll', dict(
+                ems=e, times=[[0.0], [0.0, 1.0], [1.0], [2.5]]), {}))
+        out += empty_layouts()
     else:
         g = grids(4, 3)
         for i, t in enumerate(g):
@@ -184,7 +220,11 @@ BOUNDS = dict(
     quick='1-2 outputs; every pair of per-output time multisets of length '
           '1..2 over 3 distinct values (ties included); error-model '
           'assignments rotated over the grid pairs plus all 16 on three grid '
-          'pairs; 2 mechanistic parameters',
+          'pairs; every triple of error models with unequal parameter counts '
+          'on 3 outputs and two assignments on 4 outputs (fixed grids); '
+          'outputs without measurements in every position of 2- and 3-output '
+          'likelihoods; '
+          '2 mechanistic parameters',
     thorough='1-3 outputs; all pairs of time multisets of length 1..3 over 4 '
              'distinct values, all triples of length 1..2 over 3 values; '
              'error-model assignments rotated',
